@@ -12,6 +12,24 @@ pub struct SkCase {
     /// corpus font used for cross-font hinting-instance histories
     pub other: String,
     pub args: SkArgs,
+    /// generated TrueType programs replacing the font's `prep` / `fpgm` tables (after the byte edits)
+    #[serde(default)]
+    pub prep: Option<Vec<crate::ttgen::Ins>>,
+    #[serde(default)]
+    pub fpgm: Option<Vec<crate::ttgen::Ins>>,
+    /// when set, the "other" font is a sibling of the font under test that differs only in one maxp field
+    /// (byte offset into maxp, value): hinting-instance state sized for almost the same font
+    #[serde(default)]
+    pub sibling_maxp: Option<(u8, u16)>,
+}
+
+fn replace_tables(bytes: &[u8], repl: &[([u8; 4], Vec<u8>)]) -> Vec<u8> {
+    let Some((version, mut tables)) = vcore::sfnt::split_tables(bytes) else { return bytes.to_vec() };
+    for (tag, data) in repl {
+        tables.retain(|t| &t.0 != tag);
+        tables.push((*tag, data.clone()));
+    }
+    vcore::sfnt::assemble(version, &tables)
 }
 
 pub fn corpus_index() -> CorpusIndex {
@@ -66,7 +84,34 @@ pub fn test_sk(ix: &CorpusIndex, c: &SkCase, stats: &Stats, strict: bool) -> Cas
         stats.class("unmaterializable");
         return Ok(());
     };
-    let other = ix.font(&c.other).map(|f| f.data.as_slice());
+    let mut bytes = bytes;
+    let mut repl = vec![];
+    if let Some(p) = &c.prep {
+        repl.push((*b"prep", crate::ttgen::encode(p)));
+        stats.class("generated_prep");
+    }
+    if let Some(p) = &c.fpgm {
+        repl.push((*b"fpgm", crate::ttgen::encode(p)));
+        stats.class("generated_fpgm");
+    }
+    if !repl.is_empty() {
+        bytes = replace_tables(&bytes, &repl);
+    }
+    let sibling: Option<Vec<u8>> = c.sibling_maxp.and_then(|(off, val)| {
+        let (_, tables) = vcore::sfnt::split_tables(&bytes)?;
+        let mut maxp = tables.iter().find(|t| &t.0 == b"maxp")?.1.clone();
+        let o = off as usize;
+        if o + 2 > maxp.len() {
+            return None;
+        }
+        maxp[o..o + 2].copy_from_slice(&val.to_be_bytes());
+        stats.class("sibling_other_font");
+        Some(replace_tables(&bytes, &[(*b"maxp", maxp)]))
+    });
+    let other = match &sibling {
+        Some(s) => Some(s.as_slice()),
+        None => ix.font(&c.other).map(|f| f.data.as_slice()),
+    };
     let o = match guard::catch(|| skdrive::drive_file(&bytes, other, &c.args)) {
         Ok(o) => o,
         Err(p) => {
@@ -127,7 +172,7 @@ pub fn ift_strategy() -> impl Strategy<Value = IftCase> {
         proptest::collection::vec((0u8..iftdrive::PATCH_FIXTURES as u8, edits(5), proptest::bool::weighted(0.7)), 1..4),
         (prop_oneof![4 => Just(vec![]), 1 => proptest::collection::vec(any::<u8>(), 1..3)], prop_oneof![6 => Just(vec![]), 1 => proptest::collection::vec(any::<u8>(), 1..2)], prop_oneof![5 => Just(0u8), 2 => Just(1u8), 2 => Just(2u8)], any::<u8>(), 0u8..4),
     )
-        .prop_map(|((base, ift, iftx), def, patches, (applied, missing, decoder, fail_at, rounds))| IftCase { base, ift, iftx, def, patches, applied, missing, decoder, fail_at, rounds })
+        .prop_map(|((base, ift, iftx), def, patches, (applied, missing, decoder, fail_at, rounds))| IftCase { base, ift, iftx, def, patches, applied, missing, decoder, fail_at, rounds, dag: None })
 }
 
 pub fn test_ift(ix: &CorpusIndex, c: &IftCase, stats: &Stats, strict: bool) -> CaseResult {
@@ -191,6 +236,9 @@ pub fn stages(ctx: &Ctx, strict: bool) {
             m: MutCase { font: names[i / 6].clone(), table: "FILE".into(), edits: vec![] },
             other: names[(mix(i as u64, 99) % names.len() as u64) as usize].clone(),
             args: skargs_of(i as u64),
+            prep: None,
+            fpgm: None,
+            sibling_maxp: None,
         })
         .collect();
     ctx.index_stage("skrifa-unmutated", Isolation::Procs, plain.len() as u64, |i| plain[i as usize].clone(), |c, s| test_sk(&ix, c, s, strict));
@@ -203,16 +251,60 @@ pub fn stages(ctx: &Ctx, strict: bool) {
         "skrifa-sweep",
         Isolation::Procs,
         sweep.len() as u64,
-        |i| SkCase { m: sweep[i as usize].clone(), other: names[(mix(i, 98) % names.len() as u64) as usize].clone(), args: skargs_of(i) },
+        |i| SkCase { m: sweep[i as usize].clone(), other: names[(mix(i, 98) % names.len() as u64) as usize].clone(), args: skargs_of(i), prep: None, fpgm: None, sibling_maxp: None },
         |c, s| test_sk(&ix, c, s, strict),
     );
     // (2) havoc x generated argument records
     let strat = || {
-        (havoc_strategy(&ix, 300_000, 6), proptest::sample::select(names.clone()), skargs_strategy()).prop_map(|(m, other, args)| SkCase { m, other, args })
+        (havoc_strategy(&ix, 300_000, 6), proptest::sample::select(names.clone()), skargs_strategy()).prop_map(|(m, other, args)| SkCase { m, other, args, prep: None, fpgm: None, sibling_maxp: None })
     };
     ctx.prop_stage("skrifa-havoc", Isolation::Procs, ctx.n(60_000, 600_000), strat, |c, s| test_sk(&ix, c, s, strict));
+    // (2b) generated TrueType programs in prep / fpgm of instructed fonts, interpreter engine, incl. sibling-font instances
+    let hinted: Vec<String> = ix
+        .fonts
+        .iter()
+        .filter(|f| f.tables.iter().any(|t| &t.0 == b"fpgm" || &t.0 == b"prep") && f.tables.iter().any(|t| &t.0 == b"glyf"))
+        .map(|f| f.name.clone())
+        .collect();
+    let bstrat = || {
+        (
+            proptest::sample::select(hinted.clone()),
+            proptest::sample::select(names.clone()),
+            skargs_strategy(),
+            proptest::option::weighted(0.8, crate::ttgen::program_strategy()),
+            proptest::option::weighted(0.25, crate::ttgen::program_strategy()),
+            proptest::option::weighted(0.5, (proptest::sample::select(vec![14u8, 16, 18, 20, 22, 24, 26]), prop_oneof![Just(0u16), Just(1), Just(2), 0u16..64, any::<u16>()])),
+        )
+            .prop_map(|(font, other, mut args, prep, fpgm, sibling_maxp)| {
+                args.engine = 0; // interpreter
+                if sibling_maxp.is_some() {
+                    args.inst_mode = 2;
+                }
+                if args.size_kind < 3 || args.size_kind > 6 {
+                    args.size_kind = 3 + args.size_kind % 4;
+                }
+                SkCase { m: MutCase { font, table: "FILE".into(), edits: vec![] }, other, args, prep, fpgm, sibling_maxp }
+            })
+    };
+    ctx.prop_stage("skrifa-bytecode", Isolation::Procs, ctx.n(40_000, 400_000), bstrat, |c, s| test_sk(&ix, c, s, strict));
     // (3) IFT client
     ctx.prop_stage("ift", Isolation::Procs, ctx.n(150_000, 1_500_000), ift_strategy, |c, s| test_ift(&ix, c, s, strict));
+    // (3b) deep child-index DAGs (conjunctive / disjunctive): selection must stay polynomial in the map size
+    let dstrat = || {
+        (
+            ift_strategy(),
+            prop_oneof![2u8..20, 20u8..70, 70u8..=200],
+            proptest::collection::vec(proptest::bool::weighted(0.7), 1..6),
+            proptest::collection::vec((0u8..3, 0u8..3), 1..5),
+            prop_oneof![Just(0u8), 2u8..9],
+        )
+            .prop_map(|(mut c, n, conj, fan, own_codepoints_every)| {
+                c.dag = Some(iftdrive::DagSpec { n, conj, fan, own_codepoints_every });
+                c.iftx = None;
+                c
+            })
+    };
+    ctx.prop_stage("ift-child-dag", Isolation::Procs, ctx.n(15_000, 150_000), dstrat, |c, s| test_ift(&ix, c, s, strict));
     // replays of inputs found by the coverage-guided target c02_ift
     ctx.index_stage("ift-raw", Isolation::Threads, 0, |_| RawIft { raw_hex: String::new() }, |c: &RawIft, s| {
         let h = c.raw_hex.strip_prefix("hex:").unwrap_or(&c.raw_hex);
